@@ -6,9 +6,10 @@ LEVEL_TEXT = ("Lean theorems over the small-step system controller x abstract ex
               "cluster, admissible heuristic choice and event order/batching, each task is named by at most one task_sequence command (and exactly "
               "one once its completion was seen), sent to a worker that exists, has nothing queued and satisfies the GPU requirement, with every "
               "input already produced and present on the target host or in an outstanding transfer to it (all seven C02 monitors never fire; "
-              "InvAll). Worker side (Model/Worker.lean = runner/entrypoint.py wait loop): for every message interleaving the worker enters "
+              "InvAll); with non-atomic task bodies (Model/CtrlN.lean) every input of a computable or dispatched task has really been published "
+              "(c02_inputs_published). Worker side (Model/Worker.lean = runner/entrypoint.py wait loop): for every message interleaving the worker enters "
               "execute_sequence only after a DatasetPublished notice for every required dataset (c02_worker_waits).")
-LEVEL_NOTE = ("modelled, not verified: scheduler/api.py initialize/plan, scheduler/assign.py build_assignment + the pops of _assignment_heuristic, controller/act.py act/flush_queues, controller/notify.py notify/consider_*, impl.run loop skeleton (Model/Ctrl.lean, one Lean function per Python function). Abstracted as an oracle argument validated for admissibility by the model and supplied from what the real run chose: which (idle worker, computable task) pairs the distance/overhead heuristics and host->component migration pick per round, and which `available` host is the transmit source; theorems quantify over all admissible choices. Executors are abstract (Env; SimBridge mirrors it): a dispatched task runs once its inputs are on its host and publishes outputs in index order; transmit/fetch read the source store; purge is immediate. Hypothesis WF: tasks topologically numbered, inputs duplicate-free, >=1 output per task, requested outputs exist, worker ids distinct (the generator guarantees it). Worker model: availab_ds/missing_ds/waiting_ts bookkeeping of entrypoint(), driven in-process with fake zmq/Memory; `required` is computed by the harness as the code does.")
+LEVEL_NOTE = ("modelled, not verified: scheduler/api.py initialize/plan, scheduler/assign.py build_assignment + the pops of _assignment_heuristic, controller/act.py act/flush_queues, controller/notify.py notify/consider_*, impl.run loop skeleton (Model/Ctrl.lean, one Lean function per Python function). Abstracted as an oracle argument validated for admissibility by the model and supplied from what the real run chose: which (idle worker, computable task) pairs the distance/overhead heuristics and host->component migration pick per round, and which `available` host is the transmit source; theorems quantify over all admissible choices. Executors are abstract (Env + the non-atomic layer Model/CtrlN.lean; SimBridge mirrors both): a dispatched task starts once its inputs are in its host's store and publishes its outputs in index order, one step per output, interleaved with everything else; transmit/fetch read the source store; purge is immediate. Hypothesis WF: tasks topologically numbered, inputs duplicate-free, >=1 output per task, requested outputs exist, worker ids distinct (the generator guarantees it). Worker model: availab_ds/missing_ds/waiting_ts bookkeeping of entrypoint(), driven in-process with fake zmq/Memory; `required` is computed by the harness as the code does.")
 TECHNIQUE = "Lean 4 inductive system invariant over a small-step transition system (controller micro-steps x adversarial executors) + worker wait-loop invariant; step-by-step state correspondence with the real controller (SimBridge) and the real worker entrypoint"
 LEAN_PROPS = ["EkwVerif.Props.C02"]
 LEAN_DRIVERS = ["Ctrl"]
